@@ -522,6 +522,21 @@ impl IteratorRecord {
     ///
     /// [spec]: https://tc39.es/ecma262/#sec-iteratorstep
     pub(crate) fn step(&mut self, context: &mut Context) -> JsResult<bool> {
+        // Every step taken by native code (spread, array destructuring rest, `Array.from`,
+        // `new Set(iterable)`, `Promise.all`, ...) is charged against the loop-iteration limit of
+        // the running activation, like `String.prototype.repeat` does, so that a builtin consuming
+        // an endless user iterator is stopped by the runtime limits. With the default (unlimited)
+        // configuration this never fails. `for-of`/`for-in` loops are already counted by their own
+        // `IncrementLoopIteration` instruction and use `step_uncharged`.
+        crate::vm::opcode::IncrementLoopIteration::operation((), context)?;
+        self.step_uncharged(context)
+    }
+
+    /// `IteratorStep ( iteratorRecord )` without charging the loop-iteration limit.
+    ///
+    /// Only for callers that are themselves counted (the `IteratorNext` instruction of a loop
+    /// head, whose iterations are counted by `IncrementLoopIteration`).
+    pub(crate) fn step_uncharged(&mut self, context: &mut Context) -> JsResult<bool> {
         self.set_done_on_err(|iter| {
             // 1. Let result be ? IteratorNext(iteratorRecord).
             let result = iter.next(None, context)?;
